@@ -1,6 +1,6 @@
 SPECIFICATION Spec
-CONSTANTS FullLen = 2
-          SparseLen = 6
+CONSTANTS FullLen = 3
+          SparseLen = 7
           PairLen = 3
 INVARIANTS TypeOK UnreadIntact WriteBehindRead PairsInRange InPlaceSame
            KRoundTrip KEncCanonical KRightInverse KFlagBits KKeybytesRoundTrip KLeafExtDistinct
